@@ -29,7 +29,7 @@ def cases(tier, seed):
     for k in range(n):
         r = random.Random("C11/%d/%s/%d" % (seed, tier, k))
         avw, pw = WIDTHS[k % len(WIDTHS)]
-        c = dict(avw=avw, pw=pw, base=r.choice([0, 0, 0x1000, 0x100000]), max_burst=r.choice([2, 4, 8, 16, 16]),
+        c = dict(avw=avw, pw=pw, base=r.choice([0, 0, 0x1000, 0x100000]), max_burst=r.choice([2, 4, 8, 16, 16, 3, 5, 12]),
                  cls=CLASSES[(k // len(WIDTHS)) % len(CLASSES)], gaps=GAPS[(k // (len(WIDTHS) * len(CLASSES))) % len(GAPS)],
                  nacc=r.randint(25, 60), cmd_ready_prob=r.choice([1.0, 0.7, 0.3]), extra_lat=r.choice([(0, 0), (0, 8), (0, 30)]),
                  long_stall=r.choice([0, 0, 0.01]), idle=r.choice([0, 0, 3]), aligned=bool(r.random() < 0.6),
